@@ -1,7 +1,7 @@
 // Correspondence harness for C02: drives the real HashMap / HashSet / PoolMap on the op file.
 // The containers are driven through their public API only; the access override is used to
 // READ the bucket array, chains, back-pointers, free list and blocks for the L-int dump.
-//   case <n> <hm|hs|pm> <i|l|u|p|s> <cap0> <cap1> …     one container variable per capacity
+//   case <n> <hm|hs|pm> <b|B|h|H|i|u|l|q|p|s> <cap0> <cap1> …     one container variable per capacity
 // Built with -DC02_CONST_ALL / -DC02_PTR_REMOVEBACK when the corresponding calls are well-formed (checks/C02.py probes).
 #include "vh.hpp"
 #define private public
@@ -19,7 +19,10 @@ template<typename A, typename B> struct IsSame { enum { v = 0 }; };
 template<typename A> struct IsSame<A, A> { enum { v = 1 }; };
 
 // ---- keys ---------------------------------------------------------------------------------
-// Key types: i = int32, l = int64, u = uint32, p = const void* (hash = address >> 3), s = String.
+// Key types: b = int8, B = uint8, h = int16, H = uint16, i = int32, u = uint32, l = int64, q = uint64 (hash = (usize)v, one
+// overload of hash() each in Base.hpp), p = const void* (hash = address >> 3), s = String.
+// A decimal key is converted to the key type by a cast (two's complement wrap), like wrap_<type> of the model.
+typedef char usize_is_64_bits[sizeof(usize) == 8 ? 1 : -1];     // the model computes (usize)v modulo 2^64
 // A String key is built in place, and the SAME key text is presented through differently stored String objects
 // from one operation to the next (the storage is no part of the key: operator== compares length + bytes):
 //   0 heap copy   1 slice attached inside a larger buffer, preceded by 'X', followed by NUL
@@ -39,6 +42,26 @@ template<> struct KeyT<int64> {
 template<> struct KeyT<uint32> {
   static void parse(uint32& k, const char* s) { k = (uint32)strtoull(s, 0, 10); }
   static void print(const uint32& k) { printf("%lu", (unsigned long)k); }
+};
+template<> struct KeyT<int8> {
+  static void parse(int8& k, const char* s) { k = (int8)strtoll(s, 0, 10); }
+  static void print(const int8& k) { printf("%d", (int)k); }
+};
+template<> struct KeyT<uint8> {
+  static void parse(uint8& k, const char* s) { k = (uint8)strtoull(s, 0, 10); }
+  static void print(const uint8& k) { printf("%u", (unsigned)k); }
+};
+template<> struct KeyT<int16> {
+  static void parse(int16& k, const char* s) { k = (int16)strtoll(s, 0, 10); }
+  static void print(const int16& k) { printf("%d", (int)k); }
+};
+template<> struct KeyT<uint16> {
+  static void parse(uint16& k, const char* s) { k = (uint16)strtoull(s, 0, 10); }
+  static void print(const uint16& k) { printf("%u", (unsigned)k); }
+};
+template<> struct KeyT<uint64> {
+  static void parse(uint64& k, const char* s) { k = (uint64)strtoull(s, 0, 10); }
+  static void print(const uint64& k) { printf("%llu", (unsigned long long)k); }
 };
 template<> struct KeyT<const void*> {
   static void parse(const void*& k, const char* s) { k = (const void*)(usize)strtoull(s, 0, 10); }
@@ -219,6 +242,66 @@ template<typename K, int KIND> struct Runner
     }
   }
 
+  // One item of a traversal: key:value through the non-const iterator, and the const forms of the accessors
+  // (operator* const, operator-> const; operator-> non-const where it exists) must denote the very same object.
+  static void visit(It& it, long cnt, bool& mism)
+  {
+    if(cnt) printf(" ");
+    KeyT<K>::print(keyOf(it)); printf(":%ld", valOf(it));
+    const It& c = it;
+    if constexpr(KIND == KSET) {
+      // HashSet::Iterator has only the const pair
+      if(&*c != c.operator->() || &*c != &keyOf(it)) mism = true;
+    } else {
+      const void* direct = &*it;                        // V& operator*()
+      if((const void*)&*c != direct) mism = true;       // const V& operator*() const
+      if((const void*)c.operator->() != direct) mism = true;    // const V* operator->() const
+      if((const void*)it.operator->() != direct) mism = true;   // V* operator->()
+      if(&c.key() != &keyOf(it)) mism = true;
+    }
+  }
+
+  // fwd: for(it = begin(); it != end(); ++it)      bwd: for(it = end(); it != begin(); ) { --it; … }
+  // Every step is made twice: through the non-const operator (advances the iterator, returns a reference to it) and
+  // through the const operator of the same name on a const copy (leaves the copy alone, returns the neighbour by
+  // value); both must arrive at the same item.  Iterator() is default-constructed, compared and assigned.
+  // On any disagreement the token CONSTMISMATCH is added to the observation.
+  static void walk(Tab& a, bool back)
+  {
+    long bound = (long)a.size() + 4, cnt = 0;
+    bool mism = false;
+    It d;
+    { It d2; if(!(d == d2) || d != d2) mism = true; }
+    printf("w=[");
+    It it = back ? a.end() : a.begin();
+    d = it;
+    if(d != it || !(d == it)) mism = true;
+    if(!back) {
+      while(it != a.end() && cnt < bound) {
+        visit(it, cnt, mism);
+        const It c = it;
+        It viaConst = ++c;                     // Iterator operator++() const
+        if(c != it) mism = true;
+        const It& r = ++it;                    // const Iterator& operator++()
+        if(&r != &it || viaConst != it) mism = true;
+        ++cnt;
+      }
+    } else {
+      while(it != a.begin() && cnt < bound) {
+        const It c = it;
+        It viaConst = --c;                     // Iterator operator--() const
+        if(c != it) mism = true;
+        const It& r = --it;                    // const Iterator& operator--()
+        if(&r != &it || viaConst != it) mism = true;
+        visit(it, cnt, mism);
+        ++cnt;
+      }
+    }
+    printf("]");
+    if(cnt >= bound) printf(" LOOP!");
+    if(mism) printf(" CONSTMISMATCH");
+  }
+
   static void exec(vh::Tok& t)
   {
     const char* o = t.v[0];
@@ -298,6 +381,10 @@ template<typename K, int KIND> struct Runner
       // HashMap<String,int> and PoolMap<K,Val> are only driven with C02_CONST_ALL: their const overloads
       // are not instantiable while they are declared with the key type (checks/C02.py probes that).
       constFrontBack(a, f);
+    } else if(!strcmp(o, "fwd")) {
+      walk(a, false);
+    } else if(!strcmp(o, "bwd")) {
+      walk(a, true);
     } else if(!strcmp(o, "setv")) {
       K k; KeyT<K>::parse(k, t.v[2]);
       int val = atoi(t.v[3]);
@@ -358,6 +445,11 @@ template<typename K, int KIND> static void select(vh::Tok& t)
 template<int KIND> static void selectKey(vh::Tok& t)
 {
   switch(t.v[3][0]) {
+  case 'b': select<int8, KIND>(t); break;
+  case 'B': select<uint8, KIND>(t); break;
+  case 'h': select<int16, KIND>(t); break;
+  case 'H': select<uint16, KIND>(t); break;
+  case 'q': select<uint64, KIND>(t); break;
   case 'i': select<int32, KIND>(t); break;
   case 'l': select<int64, KIND>(t); break;
   case 'u': select<uint32, KIND>(t); break;
